@@ -82,7 +82,7 @@ Theorem hstep_total : forall st op, WF (hs st) -> exists st', hstep st op = Ok s
 Proof.
   intros st op W.
   assert (Same : exists st', Ok st = Ok st' /\ WF (hs st')) by (exists st; split; [reflexivity|exact W]).
-  destruct op as [h p args keeps|h args keeps|h c|l t|l s strong|l c|l|l|h h'|h| |]; cbn [hstep].
+  destruct op as [h p args keeps|h args keeps|h c|l t|l s strong|l c strong|l|l|h h'|h| |]; cbn [hstep].
   - destruct (lookups (slots st) args) as [sl|]; [|exact Same].
     destruct (lookups (slots st) keeps) as [kl|]; [|exact Same].
     destruct (free_slot st h && arity_ok p (length args)); [|exact Same].
@@ -867,7 +867,7 @@ Proof. intros N L. unfold ls_h. rewrite (cn_flat_split _ l k r o N L). reflexivi
 Theorem hstep_TInv st op st' : WF (hs st) -> TInv st -> hstep st op = Ok st' -> TInv st'.
 Proof.
   intros W I H. pose proof I as [T N1 N2 OK].
-  destruct op as [h p args keeps|h args keeps|h c|l t|l s strong|l c|l|l|h h'|h| |]; cbn [hstep] in H.
+  destruct op as [h p args keeps|h args keeps|h c|l t|l s strong|l c strong|l|l|h h'|h| |]; cbn [hstep] in H.
   - (* HDef *)
     destruct (lookups (slots st) args) as [sl|] eqn:L; [|injection H as <-; exact I].
     destruct (lookups (slots st) keeps) as [kl|] eqn:Lk; [|injection H as <-; exact I].
@@ -920,11 +920,11 @@ Proof.
     match type of H with context [run_ops st ?o ?n] => destruct (run_ops st o n) as [st1| |] eqn:R; try discriminate end.
     injection H as <-.
     assert (Lk : lookups (slots st) [c] = Some [sc]) by (cbn [lookups]; rewrite L; reflexivity).
-    apply (listen_inv st l t_listen_c [c] [sc] [length (ext (hs st)) + 4] _ (t_new t_listen_c) st1 W I F t_listen_c_ok Lk).
-    + intros x [<-|[]]. cbn. left. reflexivity.
+    apply (listen_inv st l t_listen_c [c] [sc] (if strong then [length (ext (hs st)) + 4] else []) _ (t_new t_listen_c) st1 W I F t_listen_c_ok Lk).
+    + intros x Hx. destruct strong; [|destruct Hx]. destruct Hx as [<-|[]]. cbn. left. reflexivity.
     + intros o. cbn [listener_handles l_held l_ka l_id inst_slot t_listen_c t_keep t_ghost t_gclone s_h s_g map app].
-      cbn [count_occ]; destruct (Nat.eq_dec (length (ext (hs st)) + 4) o); lia.
-    + exact R.
+      destruct strong; cbn [count_occ]; destruct (Nat.eq_dec (length (ext (hs st)) + 4) o); lia.
+    + destruct strong; exact R.
   - (* HUnlisten *)
     destruct (lookup (lsn st) l) as [r|] eqn:L; [|injection H as <-; exact I].
     destruct (l_held r || l_ka r) eqn:HK; [|injection H as <-; exact I].
